@@ -15,8 +15,12 @@ def main():
                       "(RHS RANGE BOUND ...): write MPS -> read -> equiv_by_name (Coq-extracted) with the native RANGES representation; second generation; "
                       "LP rendering of the same problem and lp_mps_agree; chains MPS->LP->MPS and LP->MPS->LP; .gz/.bz2 targets; QSexact_solver on both sides; "
                       "bound statements of the written BOUNDS section vs encode_bounds (FX FR MI PL LO UP); non-trivial = comparison reached; distinct by problem text + stage")
-    ck.cov["not_covered"] = ("no model of the MPS section state machine / field splitting (explored only); MPS-specific input shapes (negative RHS on N rows, RANGES of "
-                             "both signs on L/G/E, BV/UI/LI bounds, OBJSENSE sections) are read from independently rendered files in C10 and then round-tripped there")
+    ck.cov["rule"] += ("; every MPS file written by the library is compared byte for byte with the extracted IO/MpsWrite.write_mps applied to the column-wise dump "
+                       "of the problem (storage order of the matrix, lp->objname, intmarker / rangeval allocated or not); every LP file with IO/LpWrite.write_lp")
+    ck.cov["not_covered"] = ("no model of the MPS READER (fields, set names, section state machine): C09_mps_sections_roundtrip_partial is about the sections as data "
+                             "(reader-side semantics of Ranges.v / Bounds.v / markers applied to what the writer model builds), the file-level statement "
+                             "read_mps (write_mps P) ~ P is explored; MPS-specific input shapes (negative RHS on N rows, RANGES of both signs on L/G/E, BV/UI/LI bounds, "
+                             "OBJSENSE sections) are read from independently rendered files in C10; SOS sets and REFROW are not modelled")
     ck.assumptions = ["Coq kernel; extraction (ExtrOcamlBasic, ExtrOcamlString); OCaml", "harness h_io.c dumps through the query API", "names interned to N by checks/io_common.py"]
     ck.finish(trusted_base=["coqc 8.16.1 kernel", "OCaml extraction", "harness/h_io.c + checks/io_common.py + checks/C09.py"])
 
